@@ -8,7 +8,7 @@
    AND name) or, directly, a component outside the loop. *)
 From Coq Require Import String List NArith Permutation.
 Import ListNotations.
-Require Import V.Lib.PyStr V.Lib.JTree V.Loop.Model V.Loop.Proofs V.Loop.Edges V.Loop.Subst V.Loop.Multi V.Loop.MultiProofs.
+Require Import V.Lib.PyStr V.Lib.JTree V.Loop.Model V.Loop.Proofs V.Loop.Edges V.Loop.Subst V.Loop.Multi V.Loop.MultiProofs V.Loop.Replicate.
 Open Scope N_scope.
 
 (* After k further iterations the workflow contains exactly the instances 0..k of every looped component
@@ -326,4 +326,54 @@ Proof.
     split; [vm_compute; reflexivity|]. split; [vm_compute; reflexivity|]. split; [vm_compute; reflexivity|].
     split; [vm_compute; reflexivity|]. split; [vm_compute; reflexivity|]. split; [vm_compute; reflexivity|].
     vm_compute. repeat split.
+Qed.
+
+(* ------------------------------------------------------------------ replication inside the loop (round 7)
+   A DoWhile document whose looped components carry workflowAttributes.replicate (a number or a variable) /
+   aggregate stands for its expansion [expand_doc sc rd] (replicas c0 .. c(n-1) written out; n looked up in the
+   variable scopes of the component's OWN workflow stage, [lookup_var]).  Whenever the expansion is well formed the
+   workflow after k further iterations holds exactly the instances 0..k of every REPLICA, and the placeholder of every
+   replica has the instance of iteration k as its latest one (all other theorems above apply to
+   [unroll (expand_doc sc rd) out k] in the same way: it is an ordinary [unroll]). *)
+Theorem C05_replicated_instances : forall (sc : scopes) (rd : rdoc) (out : list ocomp) (k : nat),
+  wf_doc (expand_doc sc rd) ->
+  forall n, In n (nodes (unroll (expand_doc sc rd) out k)) <->
+    (exists o, In o out /\ n = out_node o) \/
+    (exists i c, i <= N.of_nat k /\ In c (d_comps (expand_doc sc rd)) /\
+                 n = pr_id (c_stage c + rd_stage rd) (iname i (c_name c))).
+Proof. exact replicated_nodes. Qed.
+Print Assumptions C05_replicated_instances.
+
+Theorem C05_replicated_latest : forall (sc : scopes) (rd : rdoc) (out : list ocomp) (k : nat) (c : comp),
+  wf_doc (expand_doc sc rd) -> In c (d_comps (expand_doc sc rd)) ->
+  latest KeyInt (unroll (expand_doc sc rd) out k) (comp_id (rd_stage rd) c) =
+    Some (instance_of (expand_doc sc rd) (N.of_nat k) c).
+Proof. intros sc rd out k c. exact (replicated_latest sc rd out k c). Qed.
+Print Assumptions C05_replicated_latest.
+
+(* Which value of the variable counts: on the default platform the value defined for the component's own stage wins
+   over the global one; the variables of any other stage are not visible. *)
+Theorem C05_replicas_stage_scope : forall (sc : scopes) (at_ : N) (v : string),
+  s_plat sc = false ->
+  (forall n, vlookup v (stage_tab at_ (s_ds sc)) = Some n -> lookup_var sc at_ v = Some n) /\
+  (nlookup at_ (s_ds sc) = None -> lookup_var sc at_ v = vlookup v (s_dg sc)).
+Proof.
+  intros sc at_ v P. split; [intros n H; exact (default_stage_wins sc at_ v n P H)|].
+  intros H. exact (other_stage_invisible sc at_ v P H).
+Qed.
+Print Assumptions C05_replicas_stage_scope.
+
+(* non-vacuity: N = 1 globally, 2 in stage 0, 3 in stage 2 where the loop lives (import stage 2): three replicas *)
+Example C05_replicated_nonvacuous :
+  expand_doc ex_sc ex_rdoc = ex_rexp /\ wf_doc (expand_doc ex_sc ex_rdoc) /\
+  lookup_var ex_sc 2 "N" = Some 3 /\
+  option_map inst_node (latest KeyInt (unroll (expand_doc ex_sc ex_rdoc) [] 11) (2, "work2"%string)) =
+    Some "stage2.11#work2"%string /\
+  map pr_ref (i_refs (instance_of (expand_doc ex_sc ex_rdoc) 11
+                        (mk_comp "gather" 0 [RComp None "work0" "" "output"; RComp None "work1" "" "output";
+                                             RComp None "work2" "" "output"]))) =
+    ["stage2.11#work0:output"; "stage2.11#work1:output"; "stage2.11#work2:output"]%string.
+Proof.
+  split; [exact ex_rdoc_expands|]. split; [rewrite ex_rdoc_expands; exact ex_rexp_wf|].
+  repeat split; vm_compute; reflexivity.
 Qed.
